@@ -77,15 +77,31 @@ func c05Fmt(r *fw.Run, p *fw.Program) {
 						gb = tc.Block() // conditions under which the value is converted with ToBinary
 					}
 				}
-				g := c05GuardDescs(e, gb)
+				synTests := map[ssa.Value]bool{}
+				for _, t := range c05SynTests(f, e, "P0.decodeValueBase.dv") {
+					synTests[t] = true
+				}
 				nRaw, nScalar, nSyn, nOther := 0, 0, 0, 0
-				for gd, v := range g {
+				seen := map[ssa.Value]bool{}
+				for _, gg := range fw.Guards(gb) {
+					gg = gg.Normalize()
+					if seen[gg.Cond] {
+						continue
+					}
+					seen[gg.Cond] = true
+					gd, v := e.Of(gg.Cond), gg.True
+					_, helper := gg.Cond.(*ssa.Call)
+					helper = helper && synTests[gg.Cond] && !strings.HasPrefix(gd, "(pkg/scalar.Flags).IsSynthetic(")
 					switch {
 					case gd == "P0.isRaw" && v:
 						nRaw++
-					case strings.HasPrefix(gd, "assert<pkg/scalar.Scalarable>(P0.decodeValueBase.dv->V)#1") && v:
+					case gd == "assert<pkg/scalar.Scalarable>(P0.decodeValueBase.dv->V)#1" && v:
 						nScalar++
-					case strings.HasPrefix(gd, "(pkg/scalar.Flags).IsSynthetic(") && !v:
+					case synTests[gg.Cond] && !v && helper:
+						// helper(dv) == false: not (scalar and synthetic); a raw value is always a scalar
+						nSyn++
+						nScalar++
+					case synTests[gg.Cond] && !v:
 						nSyn++
 					default:
 						nOther++
